@@ -63,10 +63,15 @@ type ReplayFile struct {
 	// WorkerFrom is the first seeded run index of the worker process that found the violation. With WarmUp the
 	// replay first re-executes the seeded runs WorkerFrom..Index-1 in the same process (the state of lazily filled
 	// package-level tables and of the standard library's internal pools is then the one the run met), then the run itself.
-	WorkerFrom uint64     `json:"worker_from,omitempty"`
-	WarmUp     bool       `json:"warm_up,omitempty"`
-	Seeded     bool       `json:"seeded,omitempty"`
-	Report     *RunReport `json:"report,omitempty"`
+	WorkerFrom uint64 `json:"worker_from,omitempty"`
+	WarmUp     bool   `json:"warm_up,omitempty"`
+	Seeded     bool   `json:"seeded,omitempty"`
+	// OneCPU: the worker process that found the violation had restricted itself to one CPU (VERIF_ONECPU, so that the Go
+	// runtime reports NumCPU() == 1); a replay does the same before anything else.
+	OneCPU string `json:"one_cpu,omitempty"`
+	// Arch: GOARCH of the worker that found the violation when it is not amd64 ("386": the 32-bit build); replays use the same build.
+	Arch   string     `json:"arch,omitempty"`
+	Report *RunReport `json:"report,omitempty"`
 }
 
 func (r *ReplayFile) Write(path string) error {
